@@ -7,6 +7,7 @@
 //!   @inmem K RC LIST OP ARGS..  build LIST (name<TAB>path per line) in memory with the integer
 //!                               width `ska build` would use for K and apply OP to the in-memory
 //!                               array, no file in between (C09's in-memory side)
+//!   @conf NAME                  one of the rayon conformance programs (conformance/programs.rs)
 //!   @loadas W FILE              load FILE with the W-bit loader and print it like `nk --full-info`
 
 use ska::cli::{FileType, FilterType};
@@ -136,8 +137,12 @@ fn peek_k(inp: &str) -> usize {
     MergeSkaArray::<u64>::load(inp).expect("cannot read file").kmer_len()
 }
 
+#[path = "../../conformance/programs.rs"]
+pub mod conf_programs;
+
 pub fn run(args: &[String]) {
     match args[0].as_str() {
+        "@conf" => println!("{}", conf_programs::run(&args[1])),
         "@resave" => {
             if peek_k(&args[1]) <= 31 {
                 resave::<u64>(&args[1], &args[2])
